@@ -65,6 +65,30 @@ def regen_vectors():
     return r.returncode == 0
 
 
+def dshow(a, b):
+    """the two strings around their first difference"""
+    k = 0
+    while k < min(len(a), len(b)) and a[k] == b[k]:
+        k += 1
+    lo = max(0, k - 24)
+    pre = '...' if lo else ''
+    return '"%s%s" vs reference "%s%s" (first difference at column %d)' % (pre, a[lo:k + 40], pre, b[lo:k + 40], k)
+
+
+def replay_case(path):
+    """re-run the case line of a replay file on a driver built from the current tree"""
+    rp = json.load(open(path))['replay']
+    line = rp.get('case_line')
+    if not line:
+        print('replay file has no case line (array replays: python3 harness/py/c16_arrays.py replay <binary>)')
+        return 2
+    snap = snapshot_repo()
+    drv = build_driver(snap, 'c16_drv.c', DRV_SRCS, 'c16_drv', libs=['-lblkid'])
+    out = run_lines(drv, [line], shards=1, env=dict(os.environ, C16_TMP=mkscratch('c16.')))[0]
+    print('case     : %s\nC now    : %s\nreference: %s\nthen     : %s' % (line[:300], out, rp.get('expected'), rp.get('got')))
+    return 0 if out == rp.get('expected') else 1
+
+
 def rbytes(rng, n):
     return bytes(rng.getrandbits(8) for _ in range(n)) if n else b''
 
@@ -82,6 +106,8 @@ def varint_values(rng, width):
 
 
 def main(tier, replay=None):
+    if replay:
+        return replay_case(replay)
     chk = Check('C16', tier, 'proof + translation validation (hash models and arrays are validated, not proved)')
     rng = chk.rng
     thorough = tier == 'thorough'
@@ -132,6 +158,17 @@ def main(tier, replay=None):
     def add(group, line, exp=None, use_model=True, why=''):
         cases.append((group, line, exp, use_model, why))
 
+    # ---------------- corpus (regression cases found so far) first ----------------
+    cdir = os.path.join(VERIF, 'corpus', 'C16')
+    for f in sorted(os.listdir(cdir)) if os.path.isdir(cdir) else []:
+        if f.endswith('.json'):
+            c = json.load(open(os.path.join(cdir, f)))
+            add('corpus', c['case_line'], c.get('expected'), use_model=c.get('use_model', True))
+    # the wild string length 2^32-1 (accepted by the reference snapshot for every buffer size, fixed by e7500bb)
+    for size in (1, 16, 4096, 2 ** 31 - 1):
+        add('string_wild', 'getbs %d %d 7f7f7f7f8f4142' % (rng.choice([3, 64, 65536]), size), 'bad')
+        add('string_wild', 'getbs %d %d 7f7f7f7fff' % (rng.choice([3, 64, 65536]), size), 'bad')
+
     # ---------------- CRC ----------------
     td = crc_table_diff(snap)
     for d in td[:8]:
@@ -166,7 +203,7 @@ def main(tier, replay=None):
 
     # ---------------- hashes ----------------
     hv = L.load_hash_vectors(os.path.join(VEC, 'hash_vectors.txt'))
-    model_sids = set(range(8)) if thorough else {4, 7}
+    model_sids = set(range(8)) if thorough else {4, 5, 6, 7}
     for k, sid, seed, n, dig in hv:
         um = k != 'metro' and ((sid in model_sids) or (n <= 40 and sid == 1))
         add('hash_vendored', 'hashvec %s %s %d %d' % (k, seed, sid, n), 'ok ' + dig, use_model=um)
@@ -285,12 +322,22 @@ def main(tier, replay=None):
             skipped += 1
             continue
         cbad = exp is not None and co != exp
+        if cbad and (g == 'string_wild' or (g == 'corpus' and '7f7f7f7f8f' in line)):
+            # the input is not something the reference version writes, so C16's property is not falsified by it; but
+            # the model (sgetbs_len_ok, theorem C16_sgetbs_in_bounds) no longer describes the code
+            st['c_vs_oracle_mismatch'] += 1
+            drift += 1
+            if drift <= 3:
+                chk.violation('drift_%s_%d' % (g, i), 'MODEL-DRIFT: sgetbs no longer rejects the string length 2^32-1 (%s -> "%s", model and format rule say "bad"): '
+                              'the stream model of C16 is stale; memory safety of the loader is C09\'s property' % (line[:60], co[:40]),
+                              {'case_line': line, 'c': co, 'oracle': exp, 'model': mouts.get(i)}, no_input=True)
+            continue
         if cbad:
             st['c_vs_oracle_mismatch'] += 1
             if nviol < 12:
                 nviol += 1
-                chk.violation('%s_%d' % (g, i), 'C16 %s: the working tree disagrees with the reference on a concrete input: got "%s", reference "%s"'
-                              % (g, co[:80], exp[:80]), {'driver': 'harness/c/c16_drv.c', 'case_line': line, 'got': co, 'expected': exp,
+                chk.violation('%s_%d' % (g, i), 'C16 %s: the working tree disagrees with the reference on a concrete input (%s): got %s'
+                              % (g, line[:60], dshow(co, exp)), {'driver': 'harness/c/c16_drv.c', 'case_line': line, 'got': co, 'expected': exp,
                                                          'reference': 'vendored vector' if 'vendored' in g else 'independent python oracle'})
         if i in mouts:
             st['model_compared'] += 1
@@ -303,8 +350,8 @@ def main(tier, replay=None):
                     # no python oracle for this input: the model (validated on the vendored vectors) is the reference
                     if nviol < 12:
                         nviol += 1
-                        chk.violation('%s_%d' % (g, i), 'C16 %s: the working tree disagrees with the reference model (validated against the vendored vectors) on a concrete input: C "%s", model "%s"'
-                                      % (g, co[:80], mo[:80]), {'driver': 'harness/c/c16_drv.c', 'case_line': line, 'got': co, 'expected': mo, 'reference': 'extracted Gallina model'})
+                        chk.violation('%s_%d' % (g, i), 'C16 %s: the working tree disagrees with the reference model (validated against the vendored vectors) on a concrete input (%s): C %s'
+                                      % (g, line[:60], dshow(co, mo)), {'driver': 'harness/c/c16_drv.c', 'case_line': line, 'got': co, 'expected': mo, 'reference': 'extracted Gallina model'})
                 else:
                     drift += 1
                     if drift <= 5:
@@ -321,13 +368,6 @@ def main(tier, replay=None):
                 if al_bad <= 3:
                     chk.violation('hash_align', 'memhash %s gives different digests for the same bytes at alignment %s and 0' % (t[1], t[3]),
                                   {'case_line': line, 'got': by_line.get(line), 'at_alignment_0': by_line.get(l0)})
-    # the wild length of sgetbs: observed, reported, not a C16 violation (memory safety belongs to C09)
-    wild = run_lines(drv, ['getbs 64 4096 7f7f7f7f8f4142', 'getbs 64 16 ffffffff8f'], shards=1, env=env)
-    wm = run_lines(model, ['getbs 64 4096 7f7f7f7f8f4142'], shards=1) if model else ['-']
-    chk.cov['sgetbs_len_wrap'] = {'input': '7f7f7f7f8f4142 (length 2^32-1)', 'c_result': wild, 'model': wm[0],
-                                  'meaning': 'the size test `len + 1 > size` wraps; theorem C16_sgetbs_in_bounds_refuted; reported to C09'}
-    chk.notes.append('sgetbs accepts length 0xFFFFFFFF for any buffer size (uint32 wrap of len+1): C driver child ended with %s' % wild[0])
-
     # ---------------- vendored arrays with the binary of the working tree ----------------
     tb.join()
     arr_cov = {}
